@@ -620,6 +620,34 @@ fn datum(ctx: &mut Ctx, tape: &[u8]) -> CaseResult {
         ensure!(got.as_deref() == Some(&b[..]), format!("datum/embedded-bytes-differ/{}", what), "features {:?}: datum {} came back as {:?}", feats, hex::encode(&b), got.map(hex::encode));
         ensure!(re.windows(b.len()).any(|w| w == &b[..]), format!("datum/container-reencode-loses-bytes/{}", what), "features {:?}: {} re-encodes to {}", feats, hex::encode(&bytes), hex::encode(&re));
     }
+    // two encodings of one value are two datums (two hashes): collected in one witness set, both keep bytes and hash
+    if b != canonical {
+        if let Ok(Ok(canon_dec)) = catch(|| PlutusData::from_bytes(canonical.clone())) {
+            if canon_dec.to_bytes() == canonical {
+                let first_is_canonical = t.bool();
+                let (x, y, xb, yb) = if first_is_canonical { (&canon_dec, &dec, &canonical, &b) } else { (&dec, &canon_dec, &b, &canonical) };
+                // (a) typed setter
+                let mut l = PlutusList::new();
+                l.add(x);
+                l.add(y);
+                let mut ws = TransactionWitnessSet::new();
+                ws.set_plutus_data(&l);
+                let wb = lib("TransactionWitnessSet::to_bytes", || ws.to_bytes())?;
+                for (which, enc) in [("first", xb), ("second", yb)] {
+                    ensure!(wb.windows(enc.len()).any(|w| w == &enc[..]), "datum/equal-valued-datum-lost-in-witness-set/setter", "features {:?}: the {} of two datums with equal value and different bytes ({} / {}) is missing from {}", feats, which, hex::encode(xb), hex::encode(yb), hex::encode(&wb));
+                }
+                // (b) decoded from bytes that hold both
+                let both = cbor::encode(&cbor::map(vec![(cbor::uint(4), cbor::tag(258, cbor::array(vec![cbor::parse_document(xb).expect("own bytes"), cbor::parse_document(yb).expect("own bytes")])))]));
+                if let Ok(w2) = lib("TransactionWitnessSet::from_bytes", || TransactionWitnessSet::from_bytes(both.clone()))? {
+                    let wb2 = lib("TransactionWitnessSet::to_bytes", || w2.to_bytes())?;
+                    for (which, enc) in [("first", xb), ("second", yb)] {
+                        ensure!(wb2.windows(enc.len()).any(|w| w == &enc[..]), "datum/equal-valued-datum-lost-in-witness-set/decoded", "features {:?}: the {} of two datums with equal value and different bytes is missing after decoding {} -> {}", feats, which, hex::encode(&both), hex::encode(&wb2));
+                    }
+                }
+                ctx.label("two-encodings-of-one-value-in-one-witness-set");
+            }
+        }
+    }
     for f in &feats {
         ctx.label(&format!("feature:{}", f));
     }
